@@ -109,6 +109,7 @@ struct Thread {
     bool signaled;
     bool yielded;
     bool frozen;
+    bool joined;
     long freeze_countdown;  // <0: not armed
     VC vc;
     VC fence_rel;  // clock at last release fence
